@@ -81,6 +81,9 @@ func (m *Model) stepList(c chk, name string, a []string) (error, bool) {
 		if hasCount {
 			n, ok := parseInt(a[1])
 			if !ok {
+				if m.Get(a[0]) == nil && c.rep.IsNil() {
+					return nil, true
+				}
 				return c.err(), true
 			}
 			count = n
@@ -144,6 +147,9 @@ func (m *Model) stepList(c chk, name string, a []string) (error, bool) {
 		s, ok1 := parseInt(a[1])
 		en, ok2 := parseInt(a[2])
 		if !ok1 || !ok2 {
+			if m.Get(a[0]) == nil && !c.rep.IsErr() {
+				return c.emptyOrNil(), true // malformed index on a missing key: the missing-key answer is accepted
+			}
 			return c.err(), true
 		}
 		e, wrong := m.listAt(a[0])
@@ -183,6 +189,9 @@ func (m *Model) stepList(c chk, name string, a []string) (error, bool) {
 		}
 		i, ok := parseInt(a[1])
 		if !ok {
+			if m.Get(a[0]) == nil && c.rep.IsNil() {
+				return nil, true
+			}
 			return c.err(), true
 		}
 		e, wrong := m.listAt(a[0])
@@ -235,6 +244,9 @@ func (m *Model) stepList(c chk, name string, a []string) (error, bool) {
 		s, ok1 := parseInt(a[1])
 		en, ok2 := parseInt(a[2])
 		if !ok1 || !ok2 {
+			if m.Get(a[0]) == nil && !c.rep.IsErr() {
+				return c.ok(), true
+			}
 			return c.err(), true
 		}
 		e, wrong := m.listAt(a[0])
